@@ -143,7 +143,7 @@ lib.DEFAULT.append(Q + "__init__")
 
 class CInit(Case):
     """The real constructor on symbolic-length lists (no parent)."""
-    props = ("C02", "C19")
+    props = ("C02", "C19", "C01") + GENE_LAYER
     scopes = (1, 2, 3)
     name = "CompoundInterval.__init__[any number of blocks, no parent]"
     func = Q + "__init__"
@@ -166,11 +166,15 @@ class CInit(Case):
             lambda j: key_le(_is_plus(r.strand), _seq_get(r._starts, j), _seq_get(r._ends, j),
                              _seq_get(r._starts, j + 1), _seq_get(r._ends, j + 1)), "so"),
         "same-number-of-blocks": lambda i, r: _seq_len(r._starts) == _seq_len(i.starts),
-        "permutation-of-input": lambda i, r: SKIP if _symbolic(r) else (
+        "permutation-of-input": lambda i, r: SKIP if (_symbolic(r) or _has_terms(r)) else (
             sorted(zip(r._starts, r._ends)) == sorted(zip(i.starts, i.ends))),
         "length-is-sum-of-blocks": lambda i, r: r.length == _total(i, r),
-        "start-end-fields": lambda i, r: And(r.start == _seq_get(r._starts, 0),
-                                             r.end == _seq_get(r._ends, _seq_len(r._ends) - 1)),
+        # end = the largest block end (blocks may nest: not necessarily the last one in sort order)
+        "start-end-fields": lambda i, r: And(
+            r.start == _seq_get(r._starts, 0),
+            ForAllRange(0, _seq_len(r._ends), lambda j: _seq_get(r._ends, j) <= r.end, "mx"),
+            ExistsRange(0, _seq_len(r._ends), lambda j: _seq_get(r._ends, j) == r.end, "mw",
+                        witness=(i.ghost.get("max/witness") if getattr(i, "ghost", None) else None))),
         "strand-kept": lambda i, r: enum_eq(r.strand, i.strand) if hasattr(i.strand, "idx") else r.strand is i.strand,
     }
 
@@ -178,8 +182,8 @@ class CInit(Case):
         starts = S.intlist("starts")
         ends = S.intlist("ends")
         strand = S.enum(STRAND, "strand")
-        if S.mode == "sym" and S.scope is None:
-            strand = S.e.enum_concretize(strand)
+        if S.mode == "sym":
+            strand = S.e.enum_concretize(strand)  # the sort key depends on the strand: case split (also in scope mode)
         return NS(starts=starts, ends=ends, strand=strand, CompoundInterval=S.cls(COMPOUND))
 
     def samples(self, rng):
@@ -193,6 +197,15 @@ class CInit(Case):
     def observe(self, r):
         from pyvc.check import default_observe as o
         return [list(map(o, _items(r._starts))), list(map(o, _items(r._ends))), o(r.length), o(r.start), o(r.end)]
+
+
+def _has_terms(r):
+    """block lists of concrete length whose ELEMENTS are solver terms (finite-scope mode): python's sorted() cannot
+    order them; the permutation clause is then carried by the multiset clauses of the scope-specific cases."""
+    try:
+        return any(hasattr(x, "sort") for x in list(r._starts) + list(r._ends))
+    except Exception:
+        return False
 
 
 def _items(x):
@@ -350,6 +363,16 @@ def _pairwise_disjoint(V):
     return And(*[V.E(a) <= V.S(b) for b in range(n) for a in range(b)]) if n > 1 else True
 
 
+def _result_len(r):
+    cn = class_name(r)
+    if cn == "_EmptyLocation":
+        return 0
+    if cn == "SingleInterval":
+        return r.end - r.start
+    n = _seq_len(r._starts)
+    return sum((_seq_get(r._ends, t) - _seq_get(r._starts, t) for t in range(n)), 0) if isinstance(n, int) else r.length
+
+
 def _fin(i, r, f):
     """clause evaluated only where the block count is concrete (finite-scope proof, native)."""
     if not isinstance(i.V.n, int):
@@ -358,7 +381,7 @@ def _fin(i, r, f):
 
 
 class CombineBlocks(Case):
-    props = ("C02",)
+    props = ("C02", "C01") + GENE_LAYER
     scopes = (1, 2, 3)
     name = "CompoundInterval._combine_blocks[any number of blocks]"
     func = Q + "_combine_blocks"
@@ -381,6 +404,11 @@ class CombineBlocks(Case):
             class_name(r) == "_EmptyLocation", ForAllRange(0, i.V.n, lambda j: i.V.S(j) == i.V.E(j), "ae"))),
         "strand-kept": lambda i, r: class_name(r) == "_EmptyLocation" or (
             enum_eq(r.strand, i.self.strand) if hasattr(r.strand, "idx") else r.strand is i.self.strand),
+        # optimize_blocks (preserve_overlappers=True) only drops empty blocks and fuses ADJACENT ones: every base
+        # keeps its multiplicity, so the total length is the sum of the input block lengths (blocks that overlap or
+        # nest are never fused - relative_interval_to_parent_location and Sequence slices rely on it)
+        "total-length-kept-when-overlaps-are-preserved": lambda i, r: _fin(i, r, lambda: Implies(
+            i.preserve, _result_len(r) == sum((i.V.E(j) - i.V.S(j) for j in range(i.V.n)), 0))),
     }
 
     def inputs(self, S):
@@ -404,3 +432,10 @@ from .c01_compound import sample_compound  # noqa
 
 CASES = [CombineBlocks(), CInit(), SortStartsEnds(1), SortStartsEnds(2), SortStartsEnds(3)]
 LIB = lib.LIB
+
+CANARIES = [
+    dict(name="compound end: last block in sort order instead of the largest end (F-C02-4)", props=("C02", "C19", "C01"),
+         file="inscripta/biocantor/location/location_impl.py",
+         old="        self.end = max(self._ends)", new="        self.end = self._ends[-1]",
+         case="CompoundInterval.__init__[any number of blocks, no parent]", expect="post:start-end-fields", scope=2),
+]
